@@ -8,10 +8,11 @@ for d in sorted(glob.glob(os.path.join(ROOT, 'seeded', 'C*'))):
     db = m.get('detected_by') or {}
     notes = open(os.path.join(d, 'notes.md')).read() if os.path.exists(os.path.join(d, 'notes.md')) else ''
     first = next((l.strip('# *').strip() for l in notes.splitlines() if l.strip() and not l.startswith('```')), '')
-    rows.append((m['id'], m['breaks_property'], 'detected' if db.get('detected') else ('missed' if db else 'not run'), db.get('first_reason') or '', db.get('wall_s', ''), first[:110]))
+    rows.append((m['id'], m['breaks_property'], 'detected' if db.get('detected') else ('thorough tier' if db.get('detected_thorough') else ('missed' if db else 'not run')), db.get('first_reason') or '', db.get('wall_s', ''), first[:110]))
 with open(os.path.join(ROOT, 'seeded', 'RESULTS.md'), 'w') as f:
     f.write('# Seeded changes: outcome of the registered quick check of the broken property\n\n')
     f.write('| id | property | outcome | first reason reported | s | what the change is |\n|---|---|---|---|---|---|\n')
     for r in rows: f.write('| %s | %s | %s | %s | %s | %s |\n' % r)
-    det = sum(1 for r in rows if r[2] == 'detected'); f.write('\n%d of %d detected.\n' % (det, len(rows)))
+    det = sum(1 for r in rows if r[2] == 'detected'); th = sum(1 for r in rows if r[2] == 'thorough tier')
+    f.write('\n%d of %d detected by the quick check of the property they break, %d more by its thorough check.\n' % (det, len(rows), th))
 print(open(os.path.join(ROOT, 'seeded', 'RESULTS.md')).read())
